@@ -458,6 +458,121 @@ def replay_bfs(case):
     return [m for m, _ in check_transition(e, case["op"], x)[0]]
 
 
+# ---------------------------------------------------------------------------
+# H: histories of observers and the in-place mutator set() on ONE Epoch object.
+# After every step every view of the object must equal that of a fresh Epoch
+# holding the same JDE (differential oracle: anything remembered across calls,
+# e.g. a cached date or sidereal time, is exposed).
+
+HIST_EVENTS = [("get_date",), ("get_full_date",), ("dow",), ("doy",), ("year",), ("mjd",), ("sidereal",),
+               ("leap",), ("julian",), ("str",), ("hash",),
+               ("set_jde", 2299160.5), ("set_date", (1987, 6, 19.5)), ("set_date", (-500, 2, 29.25)),
+               ("set_tuple", (2024, "Feb", 29, 6, 30, 15.25)), ("set_copy", 1234567.891),
+               ("iadd", 0.75), ("isub", 365.25)]
+
+
+def epoch_views(e):
+    return (e.jde(), e.get_date(), e.get_full_date(), e.dow(), e.dow(as_string=True), e.doy(), e.year(),
+            e.mjd(), e.mean_sidereal_time(), e.leap(), e.julian(), str(e), hash(e), float(e), int(e), e())
+
+
+def epoch_apply(e, ev):
+    k = ev[0]
+    if k == "get_date":
+        e.get_date()
+    elif k == "get_full_date":
+        e.get_full_date()
+    elif k == "dow":
+        e.dow()
+        e.dow(as_string=True)
+    elif k == "doy":
+        e.doy()
+    elif k == "year":
+        e.year()
+    elif k == "mjd":
+        e.mjd()
+    elif k == "sidereal":
+        e.mean_sidereal_time()
+    elif k == "leap":
+        e.leap()
+    elif k == "julian":
+        e.julian()
+    elif k == "str":
+        str(e)
+        repr(e)
+    elif k == "hash":
+        hash(e)
+    elif k == "set_jde":
+        e.set(ev[1])
+    elif k == "set_date":
+        e.set(*ev[1])
+    elif k == "set_tuple":
+        e.set(tuple(ev[1]))
+    elif k == "set_copy":
+        e.set(Epoch(ev[1]))
+    elif k == "iadd":
+        f = e
+        f += ev[1]
+        return f
+    elif k == "isub":
+        f = e
+        f -= ev[1]
+        return f
+    return e
+
+
+def check_epoch_history(case):
+    e = Epoch(case["start"])
+    done = []
+    out = []
+    for ev in case["history"]:
+        ev = tuple(tuple(x) if isinstance(x, list) else x for x in ev)
+        try:
+            e = epoch_apply(e, ev)
+        except Exception as ex:
+            out.append("history %r + %r raised %r" % (done, ev, ex))
+            break
+        done.append(ev)
+        fresh = Epoch()
+        fresh._jde = e._jde
+        try:
+            va, vf = epoch_views(e), epoch_views(fresh)
+        except Exception as ex:
+            out.append("views after history %r raised %r" % (done, ex))
+            break
+        if va != vf:
+            diff = [i for i in range(len(va)) if va[i] != vf[i]]
+            out.append("after history %r on Epoch(%r) the object (JDE %r) answers %r where a fresh Epoch of the "
+                       "same JDE answers %r (view indexes %r)"
+                       % (done, case["start"], e._jde, [va[i] for i in diff], [vf[i] for i in diff], diff))
+            break
+    return out
+
+
+def epoch_history_cases(depth):
+    out = []
+    for j0 in (2451545.0, 2299159.75, 990558.5):
+        for d in range(1, depth + 1):
+            for h in itertools.product(HIST_EVENTS, repeat=d):
+                out.append({"start": j0, "history": [list(e) for e in h]})
+    return out
+
+
+def run_epoch_history(block, ctx):
+    for case in block:
+        ctx.evals += 1
+        ctx.states += 1
+        ctx.transitions += len(case["history"])
+        ctx.traces += 1
+        if len(case["history"]) > 1:
+            ctx.nt_count += 1
+        for msg in check_epoch_history(case):
+            ctx.viol(case, msg, site="object_history")
+        ctx.outcome(len(case["history"]))
+    ctx.obs(len(block))
+    ctx.sample(block[len(block) // 2])
+
+
 def clauses(tier):
     lat = lattice(tier)
     bfs_specs = [(j0, 3, OPERANDS_FULL) for j0 in INITIALS]
@@ -467,4 +582,6 @@ def clauses(tier):
         Clause("roundtrip", chunks(lat, 64), run_roundtrip, replay_roundtrip, floor=1000),
         Clause("forms", chunks(form_instants(tier), 16), run_forms, replay_forms, floor=500),
         Clause("arith_bfs", bfs_specs, run_bfs, replay_bfs, floor=1000, shape="H"),
+        Clause("object_history", chunks(epoch_history_cases(4 if tier == "thorough" else 3), 32),
+               run_epoch_history, check_epoch_history, floor=500, shape="H"),
     ]
